@@ -1358,8 +1358,8 @@ impl Engine for SvcSim {
     }
     fn budget(_: &str, tier: Tier) -> (u64, u64) {
         match tier {
-            Tier::Quick => (1_000_000, 45),
-            Tier::Thorough => (30_000_000, 600),
+            Tier::Quick => (6_000_000, 45),
+            Tier::Thorough => (200_000_000, 600),
         }
     }
     fn gen_config(_prop: &str, _tier: Tier, rng: &mut Rng) -> Config {
